@@ -84,6 +84,12 @@ class ExcFlow:
         out: List[str] = []
         for name in site.ext:
             hit = None
+            if name.endswith("hmac.compare_digest") and isinstance(site.node, ast.Call):
+                # bytes-like arguments never raise; two str arguments raise TypeError unless both are ASCII (type-directed: cg.types)
+                tys = [self.cg.types.of(fn.module, a) for a in site.node.args] if self.cg.types is not None else []
+                if not tys or any(t.any or not t.classes or any(c in ("builtins.str", "builtins.object") for c in t.classes) for t in tys):
+                    out.append("TypeError")
+                continue
             for suffix, excs, guard in TH.THROWS:
                 if name == suffix or name.endswith("." + suffix) or name.endswith(suffix):
                     hit = (excs, guard)
